@@ -30,6 +30,11 @@ pub enum C17Case {
     Mode { mode: u8, init: Init, kind: u8, n: u16, seed: u32, chunk: u16 },
     /// SIGKILL the child after `acks` acknowledgements plus `spin` busy iterations
     Kill { mode: u8, init: Init, kind: u8, n: u16, seed: u32, chunk: u16, acks: u16, spin: u32 },
+    /// Every return of `work()` is a crash point: the file as the kernel has it (read
+    /// through another descriptor - what a SIGKILL at that instant would leave) must
+    /// already contain everything consumed.  kind: 0 u8, 1 f32, 2 Complex, 3 u32;
+    /// stream size index 0..4; batch sizes 1..=chunk_max from the case's own generator.
+    Durable { kind: u8, n: u32, seed: u32, chunk_max: u32, stream: u8 },
 }
 
 fn mode_str(m: u8) -> &'static str {
@@ -134,10 +139,18 @@ impl Prop for C17 {
         )
             .prop_map(|(mode, init, kind, n, seed, chunk, acks, spin)| C17Case::Kill { mode, init, kind, n, seed, chunk, acks, spin });
         let kw = tier.pick(1, 1) as u32;
-        prop_oneof![8 => modes, kw => kills].boxed()
+        let durable = (
+            0u8..4,
+            prop_oneof![0u32..3000, 0u32..40_000, 0u32..200_000],
+            any::<u32>(),
+            prop_oneof![1u32..10, 1u32..3000, 1u32..20_000, 1u32..200_000],
+            0u8..4,
+        )
+            .prop_map(|(kind, n, seed, chunk_max, stream)| C17Case::Durable { kind, n, seed, chunk_max: chunk_max.max(n / 300), stream });
+        prop_oneof![8 => modes, kw => kills, 6 => durable].boxed()
     }
     fn cases(&self, tier: Tier) -> u64 {
-        tier.pick(600, 20_000)
+        tier.pick(4_000, 40_000)
     }
     fn fixed_cases(&self, _tier: Tier) -> Vec<C17Case> {
         let mut v = Vec::new();
@@ -156,13 +169,14 @@ impl Prop for C17 {
     fn run(&self, case: &C17Case, ctx: &mut Ctx) {
         match case {
             C17Case::Mode { mode, init, kind, n, seed, chunk } => run_mode(*mode, *init, *kind, *n as usize, *seed as u64, *chunk as usize, ctx),
+            C17Case::Durable { kind, n, seed, chunk_max, stream } => run_durable(*kind, *n as usize, *seed as u64, *chunk_max as u64, *stream, ctx),
             C17Case::Kill { mode, init, kind, n, seed, chunk, acks, spin } => {
                 run_kill(*mode, *init, *kind, *n as usize, *seed as u64, *chunk as usize, *acks as usize, *spin, ctx)
             }
         }
     }
     fn rule(&self) -> String {
-        "enumerated: open modes x initial file states x sink kinds (54 combinations), plus generated data lengths/chunkings; fault enumeration: a child process streams a seeded sequence through the sink and acknowledges the running count of consumed samples (raw write(2)) after every work() that returns; the parent SIGKILLs it after a generated number of acknowledgements plus a generated busy-wait. Oracle: constructor result and final file content equal a model of the documented modes (Create fails iff the path exists; Overwrite leaves exactly the new data; Append keeps old content and appends, creating the file if absent; structural impossibilities are Err); after a kill the file is (old content for Append ++) a byte prefix of the serialised stream, at least as long as the last acknowledged count. Non-trivial: a mode case whose initial state is not 'absent', or a kill that landed after >= 1 acknowledgement and before the end; distinct = hash of the case (kill timing is not part of the hash).".into()
+        "enumerated: open modes x initial file states x sink kinds (54 combinations), plus generated data lengths/chunkings; fault enumeration: a child process streams a seeded sequence through the sink and acknowledges the running count of consumed samples (raw write(2)) after every work() that returns; the parent SIGKILLs it after a generated number of acknowledgements plus a generated busy-wait. Oracle: constructor result and final file content equal a model of the documented modes (Create fails iff the path exists; Overwrite leaves exactly the new data; Append keeps old content and appends, creating the file if absent; structural impossibilities are Err); after a kill the file is (old content for Append ++) a byte prefix of the serialised stream, at least as long as the last acknowledged count. In-process crash-point enumeration ('durable' cases): FileSink<u8|f32|Complex|u32> on streams of 8 KiB, 64 KiB, 1 MiB and the default 4 MB, fed batches of 1..200 000 samples; after *every* work() that returns, the file is read through a second descriptor (exactly what a SIGKILL at that instant leaves behind, since the page cache survives the process) and must hold all consumed samples and be a prefix of the serialised stream. Non-trivial: a durable case with >= 2 work() returns, a mode case whose initial state is not 'absent', or a kill that landed after >= 1 acknowledgement and before the end; distinct = hash of the case (kill timing is not part of the hash).".into()
     }
     fn assumptions(&self) -> Vec<String> {
         vec![
@@ -241,6 +255,95 @@ fn run_mode(mode: u8, init: Init, kind: u8, n: usize, seed: u64, chunk: usize, c
                 );
             }
         }
+    }
+}
+
+/// In-process crash-point enumeration: after every `work()` that returns, the file must
+/// hold all consumed samples and be a prefix of the serialised stream.
+fn run_durable(kind: u8, n: usize, seed: u64, chunk_max: u64, stream: u8, ctx: &mut Ctx) {
+    use rustradio::Sample;
+    use std::io::{Read, Seek, SeekFrom};
+    let tname = ["u8", "f32", "Complex", "u32"][(kind % 4) as usize];
+    ctx.class(format!("durable/{tname}"));
+    let sc = Scratch::new();
+    let path = sc.path("durable.bin");
+    rustradio::verif::set_stream_size([Some(8192usize), Some(65536), Some(1 << 20), None][(stream % 4) as usize]);
+    let mut works = 0u64;
+    let mut biggest = 0usize;
+    let r = catch(|| -> Result<Option<(String, String)>, String> {
+        macro_rules! go {
+            ($t:ty, $mk:expr, $ser:expr) => {{
+                let mut r = crate::gens::XRng::new(seed ^ 0xd07a);
+                let data: Vec<$t> = (0..n).map(|_| $mk(&mut r)).collect();
+                let ssz = <$t as Sample>::size();
+                let bytes: Vec<u8> = data.iter().flat_map($ser).collect();
+                let (w, rd) = rustradio::stream::new_stream::<$t>();
+                let mut sink = FileSink::<$t>::new(rd, &path, rustradio::file_sink::Mode::Create).map_err(|e| format!("ctor: {e}"))?;
+                let mut f = std::fs::File::open(&path).map_err(|e| format!("open: {e}"))?;
+                let cap = w.free();
+                let mut pos = 0usize;
+                let mut checked = 0usize;
+                loop {
+                    let m = (1 + r.below(chunk_max) as usize).min(data.len() - pos).min(w.free());
+                    if m > 0 {
+                        let mut wb = w.write_buf().unwrap();
+                        wb.slice()[..m].copy_from_slice(&data[pos..pos + m]);
+                        wb.produce(m, &[]);
+                        pos += m;
+                    }
+                    biggest = biggest.max(m);
+                    sink.work().map_err(|e| format!("work: {e}"))?;
+                    works += 1;
+                    let consumed = pos - (cap - w.free());
+                    let len = f.metadata().map_err(|e| format!("stat: {e}"))?.len() as usize;
+                    if len < consumed * ssz {
+                        return Ok(Some((
+                            format!("C17/durable/consumed-data-not-in-file/{tname}"),
+                            format!("FileSink<{tname}>: after work() call {works} (batch of {m} samples, {consumed} consumed in total = {} bytes) the file holds {len} bytes", consumed * ssz),
+                        )));
+                    }
+                    if len > bytes.len() {
+                        return Ok(Some((format!("C17/durable/not-a-prefix/{tname}"), format!("file has {len} bytes, the whole stream only {}", bytes.len()))));
+                    }
+                    if len > checked {
+                        let mut buf = vec![0u8; len - checked];
+                        f.seek(SeekFrom::Start(checked as u64)).map_err(|e| format!("seek: {e}"))?;
+                        f.read_exact(&mut buf).map_err(|e| format!("read: {e}"))?;
+                        if buf[..] != bytes[checked..len] {
+                            return Ok(Some((format!("C17/durable/not-a-prefix/{tname}"), format!("file bytes {checked}..{len} differ from the serialised stream"))));
+                        }
+                        checked = len;
+                    }
+                    if pos == data.len() && consumed == pos {
+                        break;
+                    }
+                    if works > 5_000 {
+                        break;
+                    }
+                }
+                Ok(None)
+            }};
+        }
+        match kind % 4 {
+            0 => go!(u8, |r: &mut crate::gens::XRng| r.next() as u8, |x: &u8| vec![*x]),
+            1 => go!(f32, |r: &mut crate::gens::XRng| r.unit(), |x: &f32| x.to_le_bytes().to_vec()),
+            2 => go!(rustradio::Complex, |r: &mut crate::gens::XRng| rustradio::Complex::new(r.unit(), r.unit()), |x: &rustradio::Complex| [x.re.to_le_bytes(), x.im.to_le_bytes()].concat()),
+            _ => go!(u32, |r: &mut crate::gens::XRng| r.next() as u32, |x: &u32| x.to_le_bytes().to_vec()),
+        }
+    });
+    rustradio::verif::set_stream_size(None);
+    if works >= 2 && n > 0 {
+        ctx.nontrivial();
+    }
+    ctx.count("durable_work_returns_checked", works);
+    if biggest >= 2048 {
+        ctx.class("durable/batch>=2048-samples");
+    }
+    match r {
+        Err(pi) => ctx.fail(format!("C17/panic/{}", crate::engine::loc_file(&pi.loc)), format!("FileSink<{tname}>: panic at {}: {}", pi.loc, pi.msg)),
+        Ok(Err(e)) => ctx.fail("C17/durable/error".to_string(), format!("FileSink<{tname}> on a fresh path: {e}")),
+        Ok(Ok(Some((sig, msg)))) => ctx.fail(sig, msg),
+        Ok(Ok(None)) => {}
     }
 }
 
